@@ -42,8 +42,9 @@ def refs_in(v):
         yield from refs_in(a)
     elif v.tag == 'D':
       for k, x in v.args:
-        yield from refs_in(k)
+        # y[deepcopy(key)] = deepcopy(value): CPython evaluates the right-hand side, the VALUE, first
         yield from refs_in(x)
+        yield from refs_in(k)
 
 
 def expected_runs(store, regs_by_sel, sel, scope, skip_params, depth=0):
